@@ -532,7 +532,29 @@ def bi_clone(it, fn, args, path, body, blk, depth):
     return [(path, _peel(args[0]))]
 
 
+def bi_into(it, fn, args, path, body, blk, depth):
+    """`x.into()` is `U::from(x)` (the std blanket impl): evaluated through the crate's own `From<X> for U` impl when the
+    argument is a value of a crate ADT X with exactly one such impl for the requested target."""
+    v = _peel(args[0]) if args else None
+    if not (v and v[0] == "enum"):
+        return None
+    want = fn.get("targs") or []
+    cands = []
+    for d, ff in it.f.fns.items():
+        if ff.get("name") == "from" and ff.get("impl_trait") == "std::convert::From" and ff.get("has_body") and ff["inputs"] and it.f.ty(ff["inputs"][0]).is_adt(v[1]):
+            if len(want) >= 2 and it.f.ty(ff["output"]).s != it.f.ty(want[1]).s and it.f.ty(ff["output"]).k != it.f.ty(want[1]).k:
+                continue
+            cands.append(d)
+    if len(cands) != 1 or depth >= it.max_depth:
+        return None
+    cb = it.f.body(cands[0])
+    if cb is None:
+        return None
+    return list(it.table(cb, args, depth + 1, path))
+
+
 DEFAULT_BUILTINS = {
+    "name:into": bi_into,
     "core::option::{impl#0}::is_some": bi_is_some,
     "std::option::Option::<T>::is_some": bi_is_some,
     "std::option::Option::<T>::is_none": bi_is_none,
